@@ -67,8 +67,11 @@ func gen(p *Prop, tier string, seed uint64, out string) {
 	n, viol, corpusN := 0, 0, 0
 	shrunk := map[string]bool{}
 	run := func(line string) {
-		r := SafeExec(p, line)
+		// the case line reaches the file before the real code runs: if a goroutine panic
+		// kills the process, the last line of ops.txt is the case that did it
 		fmt.Fprintln(wo, line)
+		wo.Flush()
+		r := SafeExec(p, line)
 		fmt.Fprintln(wi, r.Impl)
 		if r.Oracle != "" {
 			min := ""
